@@ -95,7 +95,7 @@ func genInClass(rnd *rand.Rand, feats []rtFeature, f rtFeature) (didStr, urlStr 
 	host := rtHost(rnd)
 	didHost, urlHost := host, host
 	if rnd.Intn(5) < 2 {
-		p := strconv.Itoa(1 + rnd.Intn(65535))
+		p := rtPort(rnd) // notable ports (scheme defaults, neighbours, range ends) as often as uniform ones
 		didHost += "%3A" + p
 		urlHost += ":" + p
 	}
@@ -184,6 +184,8 @@ func (h *harness) roundTrip() {
 			h.r.Sample(map[string]any{"part": "round trip", "feature": f.name, "did": ds, "url": us})
 		}
 	}
+	// the "optional port" dimension, enumerated (c18_port_test.go)
+	h.portSweep(bump)
 	// outside the stated class: observed, counted, never alarmed
 	m := h.r.Pick(600, 20000)
 	for i := 0; i < m; i++ {
